@@ -657,6 +657,12 @@ Lemma aeer_undetermined_roundtrip :
   (do j <- dump sch_AhbExpressionEvaluationResultSchema aeer_undetermined ;; load sch_AhbExpressionEvaluationResultSchema j) = Ok aeer_undetermined.
 Proof. exact (@load_dump_generic _ _ _ compatible_AhbExpressionEvaluationResult aeer_undetermined_inhabits). Qed.
 
+Lemma undetermined_example :
+  inhabits cls_AhbExpressionEvaluationResult aeer_undetermined
+  /\ (do j <- dump sch_AhbExpressionEvaluationResultSchema aeer_undetermined ;; load sch_AhbExpressionEvaluationResultSchema j)
+     = Ok aeer_undetermined.
+Proof. exact (conj aeer_undetermined_inhabits aeer_undetermined_roundtrip). Qed.
+
 (* the defect this property found in the original tree, kept as a refutation of the schema WITHOUT allow_none:
    dropping the allow_none argument of the Boolean fields makes the class incompatible, and the instance above is the
    witness (load answers ValidationError: "Field may not be null.") *)
@@ -779,3 +785,66 @@ Proof. split; [reflexivity|discriminate]. Qed.
 Example tree_ok_example :
   tree_ok (LTree [97]%N [LTree [99]%N [LTok [75]%N [49]%N]; LTree [98]%N [LTree [99]%N [LTok [75]%N [50]%N]; LTree [99]%N [LTok [75]%N [57;48;49]%N]]]) = true.
 Proof. reflexivity. Qed.
+
+(* ================================================================ Part 5: evaluation after the round trip *)
+(* The requirement-constraint evaluation model (Model/EvalRC.v, property C04) works on [kexpr]; [to_ltree] is the Lark
+   tree of such an expression (what parse_condition_expression_to_tree returns for it), [of_lval] reads a loaded tree
+   back.  The names are imported here, after everything above, because Grammar.v also defines a [collect]. *)
+From Ahb Require Import Model.Grammar Model.EvalRC.
+
+Definition n_condition : text := [99;111;110;100;105;116;105;111;110]%N.
+Definition n_CONDITION_KEY : text := [67;79;78;68;73;84;73;79;78;95;75;69;89]%N.
+Definition n_or : text := [111;114;95;99;111;109;112;111;115;105;116;105;111;110]%N.
+Definition n_xor : text := [120;111;114;95;99;111;109;112;111;115;105;116;105;111;110]%N.
+Definition n_and : text := [97;110;100;95;99;111;109;112;111;115;105;116;105;111;110]%N.
+Definition n_then : text := [116;104;101;110;95;97;108;115;111;95;99;111;109;112;111;115;105;116;105;111;110]%N.
+Definition lark_name (b : binop) : text := match b with BOr => n_or | BXor => n_xor | BAnd => n_and | BThen => n_then end.
+Definition binop_of_name (d : text) : option binop :=
+  if text_eqb d n_or then Some BOr else if text_eqb d n_xor then Some BXor
+  else if text_eqb d n_and then Some BAnd else if text_eqb d n_then then Some BThen else None.
+
+Fixpoint to_ltree (e : kexpr) : ltree :=
+  match e with
+  | EAtom k => LTree n_condition [LTok n_CONDITION_KEY k]
+  | EBin b l r => LTree (lark_name b) [to_ltree l; to_ltree r]
+  end.
+Fixpoint of_lval (x : lval) : option kexpr :=
+  match x with
+  | PTree d [PTok ty (Some k)] => if text_eqb d n_condition && text_eqb ty n_CONDITION_KEY then Some (EAtom k) else None
+  | PTree d [l; r] =>
+      match binop_of_name d, of_lval l, of_lval r with
+      | Some b, Some el, Some er => Some (EBin b el er)
+      | _, _, _ => None
+      end
+  | _ => None
+  end.
+
+Lemma of_lval_embed e : of_lval (embed (to_ltree e)) = Some e.
+Proof.
+  induction e as [k|b l IHl r IHr]; [reflexivity|].
+  change (embed (to_ltree (EBin b l r))) with (PTree (lark_name b) [embed (to_ltree l); embed (to_ltree r)]).
+  assert (Hb : binop_of_name (lark_name b) = Some b) by (destruct b; reflexivity).
+  destruct (embed (to_ltree l)) eqn:El.
+  - destruct l; discriminate.
+  - simpl. simpl in IHl. rewrite Hb. rewrite IHl. rewrite IHr. reflexivity.
+  - destruct l; discriminate.
+Qed.
+
+Lemma tree_ok_to_ltree e : (forall k, In k (keys_of e) -> k <> []) -> tree_ok (to_ltree e) = true.
+Proof.
+  assert (H : (forall k, In k (keys_of e) -> k <> []) -> tok_ok (to_ltree e) = true).
+  { induction e as [k|b l IHl r IHr]; simpl; intros Hk.
+    - destruct k; [exfalso; apply (Hk []); [now left|reflexivity]|reflexivity].
+    - rewrite IHl, IHr; [reflexivity| |]; intros k Hin; apply Hk; apply in_or_app; [now right|now left]. }
+  intros Hk. destruct e; exact (H Hk).
+Qed.
+
+(* C19_eval_after_roundtrip *)
+Theorem eval_after_roundtrip (ce : cer) (e : kexpr) :
+  (forall k, In k (keys_of e) -> k <> []) ->
+  exists x, load_tree (dump_tree (to_ltree e)) = Ok x /\ of_lval x = Some e
+            /\ option_map (rc_evaluation ce) (of_lval x) = Some (rc_evaluation ce e).
+Proof.
+  intros Hk. exists (embed (to_ltree e)). rewrite (tree_roundtrip (to_ltree e) (tree_ok_to_ltree e Hk)), of_lval_embed.
+  repeat split.
+Qed.
